@@ -17,13 +17,20 @@
        hence the name `_partial`: the property's exact simplex is NOT what the code maintains.
        Not modelled: the shrinking book-keeping (variable/example tables are permuted, values are not
        changed) - monitored on the real solvers.
-     * the analytic sub-solvers the steps are made of: solveQuadratic2DTriangle returns a point of the
-       triangle for ALL inputs (snapping included) and moves it by <= 1e-12*maxSum when snapping;
-       solveQuadraticEdge (repaired: degenerate test Q <= 0) returns a maximiser over its interval for every Q >= 0; solveQuadratic2DBox (repaired,
-       /repo bc5f2886) stays in the box and never loses objective; the triangle step does not lose
-       objective in the situations listed in C16_triangle_gain_nonneg_partial and DOES lose objective
-       for a positive definite block with determinant <= 1e-12 (C16_triangle_gain_refuted: the
-       absolute determinant test + `maxGain = -1` are still in solveQuadratic2DTriangle);
+     * the analytic sub-solvers the steps are made of (all three repaired in /repo: edge solver
+       degenerate test Q <= 0, box solver bc5f2886, triangle solver ab716aec):
+       solveQuadratic2DTriangle returns a point of the triangle for every feasible start and ALL other
+       inputs (gradient, matrix - also indefinite -, snapping included); for an infeasible start the
+       literal code keeps the point when no candidate gain exceeds -DBL_MAX, so that case carries the
+       hypothesis that some candidate does (C16_triangle_in_simplex; the solvers only call it with
+       feasible starts, which is what the every-history theorem uses); snapping moves a point by
+       <= 1e-12*maxSum; FULL gain statement C16_triangle_gain_nonneg: feasible start and non-negative
+       diagonal => the point chosen before the final snapping never loses objective (no determinant
+       hypothesis); in the edge branch it beats every boundary point (C16_triangle_edges_best);
+       C16_old_triangle_gain_refuted is the regression witness about the solver as it was before
+       ab716aec (old_solve_tri), C16_triangle_witness_repaired the same input through the new code;
+       solveQuadraticEdge returns a maximiser over its interval for every Q >= 0; solveQuadratic2DBox
+       stays in the box and never loses objective;
      * maximumGainQuadratic2D / ...OnLine return twice the optimal unconstrained gain under their
        floors (so the working-set selection ranks candidates by true gain);
      * the merge scan over a QpSparseArray row used by selectWorkingSet / maxGainBox / maxGainSimplex
@@ -48,7 +55,7 @@ Theorem C16_mc_dual_in_constraints_simplex_partial :
   forall (P : nat) (C : Q), 0 < C ->
   forall (ops : list (mcop Q)) (s : mcst Q),
   SInv P C s -> Forall (wfop P) ops ->
-  let s' := simplex_run qops qmone qtiny P C s ops in
+  let s' := simplex_run qops qlowest qtiny P C s ops in
   SInv P C s' /\
   forall e, (forall p, (p < P)%nat -> 0 <= al s' e p /\ al s' e p <= C + qtiny) /\
             asum qops (al s' e) P <= C + qtiny.
@@ -65,7 +72,7 @@ Theorem C16_simplex_slack_witness :
   let C := 1 in
   let s0 := mkmc (fun (e p : nat) => if (p =? 1)%nat then (1 # 200000000000000) else 0) (fun _ => 0) in
   SInv 2 C s0 /\
-  let s1 := simplex_step qops qmone qtiny 2 C s0 (Op1 0%nat 0%nat 1 0) in
+  let s1 := simplex_step qops qlowest qtiny 2 C s0 (Op1 0%nat 0%nat 1 0) in
   C < asum qops (al s1 0%nat) 2.
 Proof. exact simplex_slack_witness. Qed.
 Print Assumptions C16_simplex_slack_witness.
@@ -80,7 +87,9 @@ Print Assumptions C16_mc_dual_in_constraints_box.
 (* ---- the analytic sub-solvers ---- *)
 
 Theorem C16_triangle_in_simplex : forall ai aj gi gj Qii Qij Qjj M : Q, 0 <= M ->
-  let r := solve_tri qops qmone ai aj gi gj Qii Qij Qjj M in
+  ((0 <= ai /\ 0 <= aj /\ ai + aj <= M) \/
+   exists c, In c (tri_edges qops ai aj gi gj Qii Qij Qjj M) /\ qlowest < G2 ai aj gi gj Qii Qij Qjj c) ->
+  let r := solve_tri qops qlowest ai aj gi gj Qii Qij Qjj M in
   0 <= fst r /\ 0 <= snd r /\ fst r + snd r <= M.
 Proof. exact solve_tri_in_triangle. Qed.
 Print Assumptions C16_triangle_in_simplex.
@@ -98,27 +107,37 @@ Theorem C16_edge_solver_optimal : forall a g Q L U : Q, L <= U -> 0 <= Q ->
 Proof. exact edge_optimal_any_start. Qed.
 Print Assumptions C16_edge_solver_optimal.
 
-(* full statement wanted: forall points of the triangle and PSD blocks, 0 <= gain.  FALSE for the code
-   (next theorem); proved: the free branch and the case that some boundary point does not lose. *)
-Theorem C16_triangle_gain_nonneg_partial : forall ai aj gi gj Qii Qij Qjj M : Q,
-  let G := G2 ai aj gi gj Qii Qij Qjj in
-  let r := tri_unsnapped ai aj gi gj Qii Qij Qjj M in
-  0 <= M ->
-  (tri_is_free ai aj gi gj Qii Qij Qjj M -> 0 <= Qii) ->
-  (tri_is_free ai aj gi gj Qii Qij Qjj M \/
-   (0 <= Qjj /\ 0 <= Qii /\ 0 <= Qii + Qjj - 2 * Qij /\
-    (onb M (ai, aj) \/ exists y, onb M y /\ 0 <= G y))) ->
-  0 <= G r.
-Proof. exact tri_gain_nonneg_partial. Qed.
-Print Assumptions C16_triangle_gain_nonneg_partial.
+(* full statement (repaired code): every point of the triangle, every gradient, every block with
+   non-negative diagonal *)
+Theorem C16_triangle_gain_nonneg : forall ai aj gi gj Qii Qij Qjj M : Q,
+  0 <= ai -> 0 <= aj -> ai + aj <= M -> 0 <= Qii -> 0 <= Qjj ->
+  0 <= G2 ai aj gi gj Qii Qij Qjj (tri_unsnapped ai aj gi gj Qii Qij Qjj M).
+Proof. exact tri_gain_nonneg. Qed.
+Print Assumptions C16_triangle_gain_nonneg.
 
-Theorem C16_triangle_gain_refuted : exists ai aj gi gj Qii Qij Qjj M : Q,
+Theorem C16_triangle_edges_best : forall ai aj gi gj Qii Qij Qjj M : Q,
+  0 <= ai -> 0 <= aj -> ai + aj <= M -> 0 <= Qii -> 0 <= Qjj -> 0 <= Qii + Qjj - 2 * Qij ->
+  ~ tri_is_free ai aj gi gj Qii Qij Qjj M ->
+  forall y, onb M y ->
+  G2 ai aj gi gj Qii Qij Qjj y <= G2 ai aj gi gj Qii Qij Qjj (tri_unsnapped ai aj gi gj Qii Qij Qjj M).
+Proof. exact tri_edges_best. Qed.
+Print Assumptions C16_triangle_edges_best.
+
+(* regression: the solver before /repo ab716aec lost objective on a positive definite block *)
+Theorem C16_old_triangle_gain_refuted : exists ai aj gi gj Qii Qij Qjj M : Q,
   0 < Qii /\ 0 < Qjj /\ 0 < Qii * Qjj - Qij * Qij /\ Qii * Qjj - Qij * Qij <= qthr /\
   0 < ai /\ 0 < aj /\ ai + aj < M /\
-  (let r := solve_tri qops qmone ai aj gi gj Qii Qij Qjj M in
+  (let r := old_solve_tri ai aj gi gj Qii Qij Qjj M in
    G2 ai aj gi gj Qii Qij Qjj r < 0).
-Proof. exact tri_gain_refuted. Qed.
-Print Assumptions C16_triangle_gain_refuted.
+Proof. exact old_tri_gain_refuted. Qed.
+Print Assumptions C16_old_triangle_gain_refuted.
+
+Theorem C16_triangle_witness_repaired :
+  let r := solve_tri qops qlowest 1 1 (1 # 1000000) (1 # 1000000) (1 # 1000000) 0 (1 # 1000000) 10 in
+  fst r == 2 /\ snd r == 2 /\
+  0 < G2 1 1 (1 # 1000000) (1 # 1000000) (1 # 1000000) 0 (1 # 1000000) r.
+Proof. exact tri_witness_repaired. Qed.
+Print Assumptions C16_triangle_witness_repaired.
 
 Theorem C16_box2d_in_box_and_gain : forall ai aj gi gj Qii Qij Qjj Li Ui Lj Uj : Q,
   Li <= ai -> ai <= Ui -> Lj <= aj -> aj <= Uj -> 0 <= Qii -> 0 <= Qjj ->
@@ -170,10 +189,14 @@ Print Assumptions C16_sparse_scan_reads_operator.
 Example C16_simplex_hyp_sat : 0 < 1 /\ SInv 3 1 (mkmc (fun _ _ => 0) (fun _ => 0)) /\
   Forall (wfop 3) [Op1 0%nat 2%nat 1 1; Op2 0%nat 0%nat 0%nat 1%nat 1 1 1 0 1; Op2 0%nat 0%nat 1%nat 1%nat 1 1 1 0 1].
 Proof. exact simplex_hyp_sat. Qed.
-Example C16_triangle_partial_free_sat : tri_is_free (1#1) (1#1) 1 1 1 0 1 10 /\ 0 <= 1.
-Proof. exact tri_partial_free_sat. Qed.
-Example C16_triangle_partial_boundary_sat : onb 10 (0, 1) /\ 0 <= 1.
-Proof. exact tri_partial_boundary_sat. Qed.
+Example C16_triangle_free_sat : tri_is_free (1#1) (1#1) 1 1 1 0 1 10 /\ 0 <= 1.
+Proof. exact tri_free_sat. Qed.
+Example C16_triangle_edge_sat : ~ tri_is_free 0 1 1 1 1 0 1 (3#2) /\ onb (3#2) (0, 1).
+Proof. exact tri_edge_sat. Qed.
+Example C16_triangle_infeasible_start_kept :
+  solve_tri qops qlowest (-(1)) 0 (- inject_Z (2 ^ 1030)) 0 0 0 0 1 = (0, 0) /\
+  tri_best qops qlowest (-(1)) 0 (- inject_Z (2 ^ 1030)) 0 0 0 0 1 = (-(1), 0).
+Proof. exact tri_infeasible_start_kept. Qed.
 Example C16_max_gain_2d_sat : 0 < 2 /\ 0 <= 2 /\ qthr * (2 * 2) < 2 * 2 - 1 * 1.
 Proof. exact max_gain_2d_opt_sat. Qed.
 Example C16_sparse_sorted_sat : sorted_from Q 0 [(0%nat, 5); (2%nat, 7)].
